@@ -126,14 +126,26 @@ def _work(st, job):
     res = core.Result("C20", "", 0)
     h = st[VARIANT]
     kind, items = job
+    enumerated = False
+    if kind in ("tenum", "fenum"):
+        # (alphabet, prefix, total length): every string of that length with that prefix, generated here; distinct by
+        # construction, so they are counted instead of hashed
+        alpha, prefix, n = items
+        items = [prefix + "".join(x) for x in itertools.product(alpha, repeat=n - len(prefix))]
+        kind = kind[0]
+        enumerated = True
     lines = h.lines("tmpl", ["%s\t%s" % (kind, q(t)) for t in items])
     for t, ln in zip(items, lines):
         wit = {"op": "tmpl", "line": "%s\t%s" % (kind, q(t))}
+        if enumerated:
+            res.evaluations += 1
+            res.distinct_extra += 1
         if kind == "t":
             if spec_depth(t) > 2:
                 res.counters["skipped: spec nests deeper than one level"] += 1
                 continue
-            res.seen("t" + t, nontrivial=len(t) > 0)
+            if not enumerated:
+                res.seen("t" + t, nontrivial=len(t) > 0)
             py, rs = py_template(t), rs_template(ln)
             res.counters["template:py-%s/rust-%s" % (py[0], rs[0])] += 1
             if py[0] == rs[0] and (py[0] == "ERR" or py[1] == rs[1]):
@@ -141,7 +153,8 @@ def _work(st, job):
             cls = classify_template(t, py, rs)
             res.add(cls or ("unlisted:panic" if rs[0] == "PANIC" else "unlisted:template-split-differs"), {"template": t, "python": py, "rust": rs}, wit)
         else:
-            res.seen("f" + t, nontrivial=len(t) > 0)
+            if not enumerated:
+                res.seen("f" + t, nontrivial=len(t) > 0)
             py, rs = py_field(t), rs_field(ln)
             res.counters["field:py-%s/rust-%s" % (py[0], rs[0])] += 1
             if py[0] == rs[0] and (py[0] == "ERR" or py[1:] == rs[1:]):
@@ -161,9 +174,10 @@ def run(res):
     bins = core.build([VARIANT])
     rng = core.rng_for(res.seed, "c20")
     T = []
-    maxlen = 6 if thorough else 5
-    for n in range(0, maxlen + 1):
+    maxlen = 7 if thorough else 6
+    for n in range(0, 5):
         T += ["".join(x) for x in itertools.product(ALPHA, repeat=n)]
+    enum_jobs = [("tenum", (ALPHA, "".join(pre), n)) for n in range(5, maxlen + 1) for pre in itertools.product(ALPHA, repeat=n - 4)]
     for _ in range(60000 if thorough else 8000):
         T.append("".join(rng.choice(ALPHA + "xyz 12") for _ in range(rng.randint(maxlen + 1, 30))))
     for _ in range(20000 if thorough else 3000):
@@ -178,19 +192,21 @@ def run(res):
         T.append(s)
     Fn = []
     alpha2 = "[].0a-é "
-    for n in range(0, 6 if thorough else 5):
+    fmax = 7 if thorough else 6
+    for n in range(0, 5):
         Fn += ["".join(x) for x in itertools.product(alpha2, repeat=n)]
+    enum_jobs += [("fenum", (alpha2, "".join(pre), n)) for n in range(5, fmax + 1) for pre in itertools.product(alpha2, repeat=n - 4)]
     for _ in range(20000 if thorough else 4000):
         Fn.append("".join(rng.choice(alpha2 + "b1_") for _ in range(rng.randint(5, 16))))
-    jobs = [("t", x) for x in tw.batches(T, 8000)] + [("f", x) for x in tw.batches(Fn, 8000)]
+    jobs = [("t", x) for x in tw.batches(T, 8000)] + [("f", x) for x in tw.batches(Fn, 8000)] + enum_jobs
     parts = core.pmap(_work, jobs, init=tw.init_state, initargs=(bins,))
     for p in parts:
         res.merge(p)
     res.exhaustive = True
-    res.cover["templates"] = len(T)
-    res.cover["field_names"] = len(Fn)
+    res.cover["templates"] = len(T) + sum(len(ALPHA) ** 4 for k, _ in enum_jobs if k == "tenum")
+    res.cover["field_names"] = len(Fn) + sum(len(alpha2) ** 4 for k, _ in enum_jobs if k == "fenum")
     res.rule = ("templates: every string over {%s} up to length %d (exhaustive), random strings to 30, structured templates with names/conversions/specs incl. one level "
-                "of nested fields; field names: every string over {[ ] . 0 a - é space} up to length %d, random to 16; a case is one text" % (" ".join(ALPHA), maxlen, 5 if thorough else 4))
+                "of nested fields; field names: every string over {[ ] . 0 a - é space} up to length %d, random to 16; a case is one text" % (" ".join(ALPHA), maxlen, fmax))
     res.assumptions = ["CPython's _string.formatter_parser / formatter_field_name_split are the reference"]
 
 
